@@ -121,6 +121,38 @@ func VerifHarness_C08_SaveNearDuplicates() {
 	})
 }
 
+// the same with the difference a solver variable: "echo" + two arbitrary bytes + "hi" is never the
+// string "echo hi" (nor "echo  hi" unless the bytes are two blanks), so it gets its own entry
+func VerifHarness_C08_SaveSymbolicGap() {
+	path := verifFSRoot() + "/cfg/wtf/personal.yml"
+	old := []database.Command{{Command: "echo hi", Description: "one"}, {Command: "echo  hi", Description: "two"}}
+	verifFSPutDoc(path, "yaml", old)
+	gap := verifString("gap", 2)
+	e := database.Command{Command: "echo" + gap + "hi", Description: "three"}
+	err := saveToPersonalDatabase(path, e)
+	verifAssert(err == nil, "C08: saving to a healthy notebook succeeds")
+	if err != nil {
+		return
+	}
+	db, lerr := database.LoadDatabase(path)
+	verifAssert(lerr == nil, "C08: the notebook loads after a successful save")
+	if lerr != nil {
+		return
+	}
+	got := db.Commands
+	if gap == "  " {
+		verifAssert(len(got) == 2 && got[1].Description == "three", "C08: saving an existing command string replaces instead of duplicating")
+		verifReach("replaced")
+	} else {
+		verifAssert(len(got) == 3, "C08: a new command string is appended")
+		if len(got) == 3 {
+			verifAssert(got[2].Command == e.Command && got[2].Description == "three", "C08: the stored entry holds exactly the given fields")
+			verifAssert(c08SameEntry(got[0], old[0]) && c08SameEntry(got[1], old[1]), "C08: every earlier entry is still there, unchanged and in its original position")
+		}
+		verifReach("saved")
+	}
+}
+
 // ---- C09: an interrupted or failed write never damages the notebook ----
 func VerifHarness_C09_Notebook() {
 	path := verifFSRoot() + "/cfg/wtf/personal.yml"
